@@ -149,6 +149,7 @@ func pubEqual(a crypto.PublicKey, b crypto.PublicKey) bool {
 func judgeCall(m *mon.M, e *mgrEnv, o callObs, hostile *hostileSeed, scen string) {
 	m.Eval()
 	m.Distinct(fmt.Sprintf("%s|name:%s|hello:%s|served:%v", scen, o.in.Class, o.helloK, o.cert != nil))
+	m.Sample(map[string]any{"scenario": scen, "server_name": o.in.Name, "name_class": o.in.Class, "hello": o.helloK, "served": o.cert != nil, "err": fmt.Sprint(o.err)})
 	ev := e.log.snapshot()
 	wit := func(extra map[string]any) map[string]any {
 		d := map[string]any{"scenario": scen, "server_name": o.in.Name, "server_name_hex": mon.Hex([]byte(o.in.Name)), "name_class": o.in.Class, "hello": o.helloK,
